@@ -387,6 +387,8 @@ type c18outcome struct {
 	Phase      string             `json:"phase"`
 	CloseCalls int                `json:"cc"`
 	CloseFail  bool               `json:"cf"`
+	Dirty      bool               `json:"dirty,omitempty"` // the call made by the harness goroutine panicked or the constructor refused: process state unknown
+	Note       string             `json:"note,omitempty"`  // what happened then
 	RSS        int64              `json:"rss,omitempty"`   // child mode: resident set of the child
 	Files      map[string]c18fdig `json:"files,omitempty"` // real-file entries: content of every file
 }
@@ -511,6 +513,40 @@ func c18variantOf(w string) c18variant {
 	panic("c18: unknown writer " + w)
 }
 
+// c18mishap: what the harness goroutine itself met while calling the code under test. A panic of the
+// implementation (recovered here; the harness's own panics, prefixed "c18:", are re-raised) is what ends a
+// command with exit status 2; an error returned by a writer constructor is what every main turns into
+// log.Fatal (exit status 1). Both are recorded as the exit of the modelled process and the outcome is marked
+// dirty (pipes may stay registered: nothing more can be decided in this process).
+type c18mishap struct {
+	mu   sync.Mutex
+	note string
+}
+
+func (m *c18mishap) set(code int, format string, a ...any) {
+	m.mu.Lock()
+	if m.note == "" {
+		m.note = fmt.Sprintf(format, a...)
+	}
+	m.mu.Unlock()
+	c18exit.record(code)
+}
+
+func (m *c18mishap) get() string {
+	m.mu.Lock()
+	defer m.mu.Unlock()
+	return m.note
+}
+
+func (m *c18mishap) guard() {
+	if p := recover(); p != nil {
+		if s, ok := p.(string); ok && strings.HasPrefix(s, "c18:") {
+			panic(p)
+		}
+		m.set(2, "the call panicked: %.300s", fmt.Sprint(p))
+	}
+}
+
 func c18run(c c18case, record bool) c18outcome {
 	if c.Entry != "" {
 		return c18runFS(c)
@@ -518,8 +554,10 @@ func c18run(c c18case, record bool) c18outcome {
 	sink := &c18sink{fault: c.Fault, k: c.K, record: record}
 	c18exit.reset()
 	done := make(chan struct{})
+	mishap := &c18mishap{}
 	go func() {
 		defer close(done)
+		defer mishap.guard()
 		if c.Writer == "chunk" {
 			// WriteSeqFileChunk alone: chunks are handed to the channel in the arrival order.
 			batches := c18batches(c)
@@ -566,7 +604,12 @@ func c18run(c c18case, record bool) c18outcome {
 			out, err = WriteSequence(in, sink, opts...)
 		}
 		if err != nil {
-			panic(fmt.Sprintf("c18: writer constructor failed: %v", err))
+			mishap.set(1, "the writer constructor returned the error %q", err.Error())
+			if v.early {
+				for in.Next() { // let the feeder finish
+				}
+			}
+			return
 		}
 		if !v.early {
 			go feed()
@@ -577,6 +620,8 @@ func c18run(c c18case, record bool) c18outcome {
 	var o c18outcome
 	o.Hung, o.GaveUp = c18wait(done, c)
 	o.Exited, o.Code, o.NExit = c18exit.get()
+	o.Note = mishap.get()
+	o.Dirty = o.Note != ""
 	sink.mu.Lock()
 	o.N, o.H = len(sink.buf), c18hash(sink.buf)
 	o.Ends = sink.ends
@@ -664,8 +709,10 @@ func c18runFS(c c18case) c18outcome {
 	if c.Fault == "fsize" {
 		c18setFsize(c.K)
 	}
+	mishap := &c18mishap{}
 	go func() {
 		defer close(done)
+		defer mishap.guard()
 		batches := c18batches(c)
 		in := obiiter.MakeIBioSequence()
 		in.Add(1)
@@ -705,7 +752,10 @@ func c18runFS(c c18case) c18outcome {
 			}
 			out, err := formater(in, fwd, opts...)
 			if err != nil {
-				panic(fmt.Sprintf("c18: %s: %v", c.hist(), err))
+				mishap.set(1, "the writer constructor returned the error %q", err.Error())
+				for in.Next() { // let the feeder finish
+				}
+				return
 			}
 			out.Recycle() // CLIWriteBioSequences(iterator, true)
 		case "dispatch":
@@ -731,6 +781,8 @@ func c18runFS(c c18case) c18outcome {
 	o.Hung, o.GaveUp = c18wait(done, c)
 	c18setFsize(-1)
 	o.Exited, o.Code, o.NExit = c18exit.get()
+	o.Note = mishap.get()
+	o.Dirty = o.Note != ""
 	o.Files = map[string]c18fdig{}
 	ents, _ := os.ReadDir(dir)
 	for _, e := range ents {
@@ -934,7 +986,7 @@ func c18childMain() {
 			out.Write(b)
 			out.WriteByte('\n')
 			out.Flush()
-			if o.Hung || o.GaveUp {
+			if o.Hung || o.GaveUp || o.Dirty {
 				os.Exit(0) // the pipe WaitGroup of this process is no longer balanced
 			}
 		}
@@ -943,6 +995,10 @@ func c18childMain() {
 		}
 	}
 }
+
+// c18errChildDied: the child process (this binary, running the code under test on one case) ended without
+// an answer: the code under test killed it (crash of a pipeline goroutine, exit that is not a logrus exit).
+var c18errChildDied = errors.New("child ended without an answer")
 
 type c18child struct {
 	cmd   *exec.Cmd
@@ -999,14 +1055,14 @@ func (ch *c18child) run(c c18case) (c18outcome, error) {
 				return o, e
 			}
 			ch.n++
-			if o.RSS > c18childRSS || o.Hung || o.GaveUp {
+			if o.RSS > c18childRSS || o.Hung || o.GaveUp || o.Dirty {
 				ch.stop()
 			}
 			return o, nil
 		}
 		if err != nil {
 			ch.stop()
-			return c18outcome{}, fmt.Errorf("child ended without an answer for %s fault=%s@%d: %v", c.hist(), c.Fault, c.K, err)
+			return c18outcome{}, fmt.Errorf("%w for %s fault=%s@%d: %v", c18errChildDied, c.hist(), c.Fault, c.K, err)
 		}
 	}
 }
@@ -1021,8 +1077,9 @@ func TestVerifC18(t *testing.T) {
 	}
 	r := verifkit.New("C18")
 	defer r.Write()
+	// vacuity: faults really injected by the harness (what the code under test does about them — an exit
+	// recorded or not — is what is judged, not a guard)
 	r.RequireNonVacuous("fault_fired")
-	r.RequireNonVacuous("exit_recorded_nonzero")
 
 	child := &c18child{}
 	defer child.stop()
@@ -1036,13 +1093,19 @@ func TestVerifC18(t *testing.T) {
 		var o c18outcome
 		if c.Gzip && !replaying {
 			var err error
-			if o, err = child.run(c); err != nil {
+			if o, err = child.run(c); errors.Is(err, c18errChildDied) {
+				// a verdict on the tree (its crash report is in the log of the shard), not a harness failure; the
+				// next case gets a fresh child
+				r.Count("child_process_killed_by_the_code_under_test", 1)
+				r.Violate(c.target()+"/crash", fmt.Sprintf("%s fault=%s@%d: the process running the case died without a verdict: %v", c.hist(), c.Fault, c.K, err), c)
+				return
+			} else if err != nil {
 				t.Fatalf("c18: %v", err)
 			}
 			r.Count("cases_run_in_child_process", 1)
 		} else {
 			o = c18run(c, false)
-			if o.Hung || o.GaveUp {
+			if o.Hung || o.GaveUp || o.Dirty {
 				// the global pipe WaitGroup of obiiter is no longer balanced: nothing more can
 				// be decided in this process
 				poisoned = true
@@ -1111,14 +1174,21 @@ func TestVerifC18(t *testing.T) {
 	referenceFS := func(c c18case) c18ref {
 		c.Fault, c.K = "none", 0
 		o := c18run(c, true)
-		o2 := c18run(c, true)
+		var o2 c18outcome
+		if !(o.Dirty || o.Hung || o.GaveUp) {
+			o2 = c18run(c, true)
+		}
+		if o.Dirty || o2.Dirty || o.Hung || o.GaveUp || o2.Hung || o2.GaveUp {
+			poisoned = true
+			r.Cap("a fault-free run left the process in an unknown state (" + o.Note + o2.Note + "): remaining cases of this shard skipped")
+		}
 		badFS := func(what string) c18ref {
 			// a control run that misbehaves is a verdict on the tree under test, not a harness failure
 			r.Violate("control-run/"+c.Entry+":"+c.Writer+"/fault-free-run-misbehaves", fmt.Sprintf("fault-free run of %s %s", c.hist(), what), c)
 			return c18ref{n: -1}
 		}
-		if o.Hung || o.GaveUp || o.Exited || len(o.Files) == 0 || fmt.Sprint(o.Files) != fmt.Sprint(o2.Files) {
-			return badFS(fmt.Sprintf("is not usable as reference (hung=%v exit=%v/%d files=%v / %v)", o.Hung, o.Exited, o.Code, o.Files, o2.Files))
+		if o.Hung || o.GaveUp || o.Exited || o.Dirty || o2.Dirty || len(o.Files) == 0 || fmt.Sprint(o.Files) != fmt.Sprint(o2.Files) {
+			return badFS(fmt.Sprintf("is not usable as reference (hung=%v exit=%v/%d %s%s files=%v / %v)", o.Hung, o.Exited, o.Code, o.Note, o2.Note, o.Files, o2.Files))
 		}
 		want := 1
 		if c.Paired {
@@ -1149,7 +1219,14 @@ func TestVerifC18(t *testing.T) {
 		// A control run that misbehaves is a verdict on the tree under test (on the pinned tree it never does): the
 		// history is reported once and skipped (n = -1), it must not end the shard as a harness failure.
 		bad := ""
+		if o.Dirty || o.Hung || o.GaveUp {
+			// (a run that does not finish leaves the global pipe WaitGroup of obiiter unbalanced as well)
+			poisoned = true
+			r.Cap("a fault-free run left the process in an unknown state (" + o.Note + "): remaining cases of this shard skipped")
+		}
 		switch {
+		case o.Dirty:
+			bad = "fails although nothing failed: " + o.Note
 		case noClose && o.CloseCalls != 0:
 			bad = "closed a sink it was told to leave open"
 		case o.Hung || o.GaveUp:
@@ -1161,7 +1238,11 @@ func TestVerifC18(t *testing.T) {
 		}
 		if bad == "" {
 			o2 := c18run(c, true)
-			if o.N != o2.N || o.H != o2.H {
+			if o2.Dirty || o2.Hung || o2.GaveUp {
+				poisoned = true
+				r.Cap("a fault-free run left the process in an unknown state (" + o2.Note + "): remaining cases of this shard skipped")
+				bad = "fails on its second run although nothing failed: " + o2.Note
+			} else if o.N != o2.N || o.H != o2.H {
 				bad = "gives two different outputs in two runs"
 			}
 		}
@@ -1296,6 +1377,9 @@ func TestVerifC18(t *testing.T) {
 					}
 					// every shard needs the reference: the work item numbering depends on its length
 					ref := reference(hh)
+					if poisoned {
+						return
+					}
 					if ref.n < 0 {
 						continue
 					}
@@ -1417,7 +1501,6 @@ func TestVerifC18(t *testing.T) {
 		r.RequireNonVacuous("fault_fired_realfile_dispatch")
 		r.RequireNonVacuous("fault_fired_realfile_paired")
 		r.RequireNonVacuous("fault_fired_realfile_append")
-		r.RequireNonVacuous("exit_recorded_nonzero_realfile")
 	}
 	for _, pl := range fsPlans {
 		for _, gz := range pl.gz {
@@ -1438,6 +1521,9 @@ func TestVerifC18(t *testing.T) {
 						continue
 					}
 					ref := referenceFS(c) // every shard: the work item numbering depends on it
+					if poisoned {
+						return
+					}
 					if ref.n < 0 {
 						continue
 					}
